@@ -26,7 +26,9 @@ RULE = ("real projects of 1-4 jobs drawn from 13 state point shapes (nested, flo
         "another id (random, id of an absent shape, md5('null'), the freed id of another renamed job: chains and cycles, the id "
         "of a removed but still cached job); replacement also by non-mappings ([1, 2], 5, \"s\", true) and by texts nested 2000 "
         "levels deep (RecursionError in json); with no / full / partial persistent cache "
-        "(update_cache before the damage).  Observed: check() ids, open_job(id=i).statepoint() in fresh sessions, "
+        "(update_cache before the damage), optionally update_cache() by a fresh session AFTER the damage; jobs with a document and "
+        "data files or BARE (nothing but the state point file).  Observed: check() ids, open_job(id=i).statepoint() in fresh sessions, "
+        "the state point asked for three times through one by-id handle, "
         "repair() outcome, byte snapshot of the whole workspace before/after, check() after, open by id through the "
         "repairing session.  non-trivial: at least one job is damaged (canonical hash of the decoded value differs "
         "from the directory name, or undecodable/missing); distinct by (jobs, cache mode, damage list)")
@@ -86,6 +88,22 @@ def _single_sweep(stride_t, stride_s):
             dmg += [["rename", r, s] for r in RENAMES]
             for d in dmg:
                 out.append({"jobs": [s, other], "cache": cache, "damage": [[0] + d]})
+            # the cache is (re)built AFTER the damage: a fresh session calls update_cache() between the damage and every
+            # observation (seeded C09-11).  Without an earlier cache the damaged job is read from the workspace by that
+            # call; with cache 'partial:1' job 0 is already cached and only job 1 is read
+            if cache == "none":
+                for ucache in ("none", "partial:1"):
+                    und = [x for k, x in enumerate(dmg) if x[0] == "subst" and x[2] in ("digit", "letter", "quote") and k % 2 == 0]
+                    und += [["trunc", 1], ["trunc", n - 1], ["delete"]]
+                    und += [x for x in dmg if x[0] in ("replace", "rename")]
+                    for d in und:
+                        out.append({"jobs": [s, other], "cache": ucache, "upd": True, "damage": [[0] + d]})
+            # BARE jobs: a job that owns nothing but its state point file (no document, no data file) is a job like any
+            # other (seeded C09-12: after the deletion of the file its directory is empty)
+            for d in (["delete"], ["trunc", 1], ["replace", "[]"], ["replace", "other"], ["rename", "rand", s], ["subst", 1, "letter", s]):
+                out.append({"jobs": [s, other], "cache": cache, "bare": [0], "damage": [[0] + d]})
+            out.append({"jobs": [s, other], "cache": cache, "bare": [0, 1], "damage": [[0, "delete"], [1, "delete"]]})
+            out.append({"jobs": [s, other], "cache": cache, "bare": [1], "upd": True, "damage": [[0, "delete"], [1, "delete"]]})
             # chained renames (known finding 1): job 1 is renamed away, job 0 takes its name — then job 1's true id is
             # occupied by another misnamed directory; three different free names vary the listing order; and a cycle
             for k in (s, s + 100, s + 200):
@@ -130,6 +148,11 @@ def _rand_multi(rng):
         damage.append([b, "replace", "job:%d" % a])
         damage = damage[-3:]
     desc = {"jobs": jobs, "cache": cache, "damage": damage}
+    bare = [x for x in range(k) if rng.random() < 0.25]
+    if bare:
+        desc["bare"] = bare
+    if rng.random() < 0.3:
+        desc["upd"] = True
     if cache == "full" and rng.random() < 0.15:
         rest = [x for x in range(len(SHAPES)) if x not in jobs]
         desc["ghost"] = rng.choice(rest)
@@ -168,6 +191,14 @@ DIRECTED = [
     {"jobs": [0, 1, 2, 3], "cache": "none", "damage": [[3, "delete"], [1, "rename", "rand", 3], [0, "rename", "rand", 4]]},
     {"jobs": [4, 5, 6], "cache": "partial:1", "damage": [[1, "trunc", 5], [0, "delete"], [2, "rename", "rand", 5]]},
     {"jobs": [4, 5, 6], "cache": "none", "damage": [[1, "replace", "null"], [0, "rename", "rand", 6], [2, "rename", "rand", 7]]},
+    # update_cache() after the damage, job not cached before: the damaged value must not reach the cache file
+    {"jobs": [0, 1, 2], "cache": "partial:2", "upd": True, "damage": [[2, "subst", 7, "digit", 3]]},
+    {"jobs": [0, 1], "cache": "none", "upd": True, "damage": [[0, "replace", "other"]]},
+    {"jobs": [0, 1], "cache": "none", "upd": True, "damage": [[0, "replace", "reorder"], [1, "replace", "space"]]},
+    {"jobs": [4, 5, 6], "cache": "partial:1", "upd": True, "damage": [[1, "rename", "rand", 8], [0, "delete"]]},
+    # a job without document and data files loses its state point file: empty directory, still a damaged job
+    {"jobs": [0, 1, 2], "cache": "full", "bare": [1], "damage": [[1, "delete"]]},
+    {"jobs": [0, 1, 2], "cache": "none", "bare": [0, 1, 2], "damage": [[0, "delete"], [2, "delete"]]},
     # repair used to register an unvalidated state point under the wrong id (before 3837846)
     {"jobs": [0, 1], "cache": "none", "damage": [[0, "replace", "other"]]},
     {"jobs": [2, 3, 4], "cache": "partial:1", "damage": [[1, "replace", "other"], [2, "replace", "other"]]},
@@ -342,14 +373,15 @@ def run_project(root, desc):
             signac.Project(root).update_cache()
         j = p.open_job(json.loads(json.dumps(SHAPES[s])))
         j.init()
-        j.document["x"] = k
-        j.document["shape"] = {"n": s}
-        with open(j.fn("data.txt"), "wb") as fh:
-            fh.write(b"data of job %d\n" % k)
-        if k % 2 == 0:
-            os.makedirs(j.fn("sub"), exist_ok=True)
-            with open(j.fn(os.path.join("sub", "blob.bin")), "wb") as fh:
-                fh.write(bytes([0, 255, k, 10, 13]))
+        if k not in desc.get("bare", ()):
+            j.document["x"] = k
+            j.document["shape"] = {"n": s}
+            with open(j.fn("data.txt"), "wb") as fh:
+                fh.write(b"data of job %d\n" % k)
+            if k % 2 == 0:
+                os.makedirs(j.fn("sub"), exist_ok=True)
+                with open(j.fn(os.path.join("sub", "blob.bin")), "wb") as fh:
+                    fh.write(bytes([0, 255, k, 10, 13]))
         ids.append(j.id)
     ghost = None
     if desc.get("ghost") is not None:
@@ -364,11 +396,27 @@ def run_project(root, desc):
     dirs = dict(enumerate(ids))
     for dmg in desc["damage"]:
         apply_damage(root, ids, jobs, dmg, dirs, ghost)
+    upd = None
+    if desc.get("upd"):
+        # the cache is (re)built AFTER the damage, by a fresh session
+        _, cache0 = snapshot(root)
+        upd = [cache0, _res(lambda: signac.Project(root).update_cache())]
     pre, cachefile = snapshot(root)
     listing = [d for d in os.listdir(ws) if _HEX.match(d)]
     check = _ck(lambda: signac.Project(root).check())
     to_open = sorted(set(ids) | set(listing))
     opens = [[i, _res(lambda i=i: typed(to_plain(signac.Project(root).open_job(id=i).statepoint())))] for i in to_open]
+    # the same, but the state point is asked for several times through ONE handle (a retry, an error handler
+    # printing job.sp): what a handle shows after it has reported the corruption once
+    reopen = []
+    for i in to_open:
+        try:
+            j = signac.Project(root).open_job(id=i)
+        except Exception as e:  # noqa: BLE001
+            reopen.append([i, [["exn", exn_name(e)]] * 3])
+            continue
+        reopen.append([i, [_res(lambda: typed(to_plain(j.statepoint()))), _res(lambda: typed(to_plain(j.sp()))),
+                           _res(lambda: typed(to_plain(j.statepoint())))]])
     # the directory order repair() will see
     listing = [d for d in os.listdir(ws) if _HEX.match(d)]
     q = signac.Project(root)
@@ -379,7 +427,8 @@ def run_project(root, desc):
     opens_after = [[i, _res(lambda i=i: typed(to_plain(q.open_job(id=i).statepoint())))] for i in listing_after]
     return {"ids": ids, "truth": [[ids[k], dirs[k]] for k in range(len(ids))],
             "pre": pre, "cache": cachefile, "listing": listing, "check": check, "open": opens,
-            "repair": repair, "post": post, "check_after": check_after, "open_after": opens_after}
+            "repair": repair, "post": post, "check_after": check_after, "open_after": opens_after,
+            "reopen": reopen, "upd": upd}
 
 
 # ---------------------------------------------------------------- Gallina
@@ -437,6 +486,25 @@ class Emit:
             return f"(CkCorrupt {self.ids(r[1])})"
         return f"(CkExn {r[1]})"
 
+    def cache(self, c):
+        if c is None:
+            return "None"
+        return "(Some %s)" % coq_list([f"({self.name(k)}, {coq_json(v)})" for k, v in c.items()], "(str * json)")
+
+    def res(self, r):
+        return f"(Ok {coq_json(untyped(r[1]))})" if r[0] == "ok" else f"(Err {r[1]})"
+
+    def reopens(self, l):
+        return coq_list(["(%s, %s)" % (self.name(i), coq_list([self.res(r) for r in rs], "(result json)")) for i, rs in l],
+                        "(str * list (result json))")
+
+    def upd(self, u):
+        if u is None:
+            return "None"
+        c0, r = u
+        rr = f"(Err {r[1]})" if r[0] == "exn" else ("(Ok None)" if r[1] is None else f"(Ok (Some {int(r[1])}%N))")
+        return f"(Some ({self.cache(c0)}, {rr}))"
+
     def opens(self, l):
         return coq_list(["(%s, %s)" % (self.name(i), f"(Ok {coq_json(untyped(r[1]))})" if r[0] == "ok" else f"(Err {r[1]})")
                          for i, r in l], "(str * result json)")
@@ -453,6 +521,7 @@ def run_case(desc):
             # directories): report it as an observation that nothing can match, not as a harness crash
             o = {"ids": [], "truth": [], "pre": [], "cache": None, "listing": [], "check": ["exn", "EOther"], "open": [],
                  "repair": ["exn", "EOther"], "post": [], "check_after": ["exn", "EOther"], "open_after": [],
+                 "reopen": [], "upd": None,
                  "harness_exception": repr(e)[:300]}
     E = Emit()
     texts = sorted({data for comps, kind, data in o["pre"] + o["post"] if kind == "file" and comps[-1] == SPF})
@@ -473,31 +542,40 @@ def run_case(desc):
         table.append(f"({E.bytes(b)}, ({cs}, {cv}))")
     if o["cache"]:
         values += list(o["cache"].values())
-    for _, r in o["open"] + o["open_after"]:
+    if o["upd"] and o["upd"][0]:
+        values += list(o["upd"][0].values())
+    for _, r in o["open"] + o["open_after"] + [[i, r] for i, rs in o["reopen"] for r in rs]:
         if r[0] == "ok":
             values.append(untyped(r[1]))
     coq = ("{| c9_ftab := %s; c9_dec := %s; c9_fs := %s; c9_listing := %s; c9_truth := %s; c9_check := %s; c9_open := %s; "
-           "c9_repair := %s; c9_after := %s; c9_check_after := %s; c9_open_after := %s |}" % (
+           "c9_repair := %s; c9_after := %s; c9_check_after := %s; c9_open_after := %s; c9_reopen := %s; c9_upd := %s |}" % (
                coq_ftab(values), coq_list(table, "(list N * (option json * dec))"), E.tree(o["pre"], o["cache"]),
                E.ids(o["listing"]), coq_list([f"({E.name(j)}, {E.name(d)})" for j, d in o["truth"]], "(str * str)"),
                E.ck(o["check"]), E.opens(o["open"]), E.ck(o["repair"]),
-               E.tree(o["post"], o["cache"]), E.ck(o["check_after"]), E.opens(o["open_after"])))
+               E.tree(o["post"], o["cache"]), E.ck(o["check_after"]), E.opens(o["open_after"]),
+               E.reopens(o["reopen"]), E.upd(o["upd"])))
     damaged = o["check"][0] != "ok"
     kinds = ["cache:" + desc["cache"].split(":")[0], "jobs:%d" % len(desc["jobs"]), "damaged:%d" % len(desc["damage"])]
     kinds += sorted({"dmg:" + (x[1] if x[1] != "subst" else "subst-" + x[3]) for x in desc["damage"]})
+    if desc.get("bare"):
+        kinds.append("bare-job")
+    if o["upd"]:
+        kinds.append("update_cache-after-damage:" + (o["upd"][1][0] if o["upd"][1][0] == "exn" else "returns"))
     kinds.append("check:" + o["check"][0])
     kinds.append("repair:" + o["repair"][0])
     kinds.append("check-after:" + o["check_after"][0])
     if disagree:
         kinds.append("decoders-disagree")
-    obs = {k: o[k] for k in ("listing", "check", "open", "repair", "check_after", "open_after", "harness_exception") if k in o}
+    obs = {k: o[k] for k in ("listing", "check", "open", "reopen", "upd", "repair", "check_after", "open_after",
+                             "harness_exception") if k in o}
     return Case(coq, desc, obs=obs, nontrivial=damaged, kinds=kinds, prelude=list(E.prelude.items()))
 
 
 def search(desc):
     """neighbours: each damage alone, and the same damage on a project without the other jobs' damage"""
     out = []
+    extra = {k: desc[k] for k in ("bare", "upd", "ghost") if k in desc}
     for d in desc["damage"]:
-        out.append({"jobs": desc["jobs"], "cache": desc["cache"], "damage": [d]})
-        out.append({"jobs": desc["jobs"], "cache": "none", "damage": [d]})
+        out.append(dict(extra, jobs=desc["jobs"], cache=desc["cache"], damage=[d]))
+        out.append(dict({k: v for k, v in extra.items() if k != "ghost"}, jobs=desc["jobs"], cache="none", damage=[d]))
     return out[:20]
